@@ -207,7 +207,7 @@ def fp_obligations(tier, seed):
   CHECK(VF_ISNAN(p) ? VF_ISNAN(r) : r == (%s)p, "result-is-cast-of-computed-product");
 ''' % (ws['lossy'].name, G.ctype(C), wc.name, ctt, ws['conv'].name, lim, ctt)
             obs.append(Ob(id='C05.ff.exact.%s' % tag, prop='C05', group=grp, prelude=pre, wrappers=[ws['lossy'], ws['conv'], wc],
-                          inputs=[(cs, 'x')], body=body, fp=True,
+                          inputs=[(cs, 'x')], body=body, fp=True, abstract=(APPLY_FP,) if (N, D) != (1, 1) else (),
                           contract='forall %s x. !is_conversion_lossy<%s>(q,u) ==> the product computed in %s is NaN or within the finite range of %s, and the '
                                    'result is its cast' % (cs, ctt, G.ctype(C), ctt),
                           functions_under_contract=('au::Quantity::coerce_in<T>', 'au::is_conversion_lossy<T>')))
